@@ -280,14 +280,17 @@ Example c04_example_invariant :
 Proof. vm_compute. reflexivity. Qed.
 
 (* ---- the factory layer keeps the registry inside the protocol ------------------------------------------------
-   [c04_factory_conforms] in full (every op history Model/Factory.v issues is in the protocol language
-   [conforms_strict]) is decided dynamically: the check traces the REAL registry calls of real starts and
-   requires them to be in the strict language on every run.  What is proved here is its state-level
-   counterpart, for every scenario and every successful call: the registry states between calls of
-   doGetComponent satisfy the protocol invariant — early references and early factories exist only for
-   names in creation, names in creation have a cache entry and are unpublished, cache entries hold versions
-   of their own name — and a call leaves the in-creation set as it found it (creations are bracketed).
-   c04_factory_conforms_partial. *)
+   Model/FactoryTrace.v computes, by the recursion of Model/Factory.v, the HISTORY of registry calls a start
+   issues; Proofs/FactoryTraceProofs.v proves that its second component is the untraced model (erasure), that
+   replaying the history on the registry model yields the registry the start ends with, and
+   [c04_factory_conforms]: for EVERY scenario and BOTH variants of the code the history is in the strict
+   protocol language.  So the three parts of C04 proved above for conforming histories hold of every start
+   of the container ([c04_start_*]).  The correspondence check compares the model history of every generated
+   scenario with the calls traced on the real registry of the real start, op by op (Corr/WiringTrace.v).
+   The state-level statement proved earlier is kept: between calls of doGetComponent early references and
+   factories exist only for names in creation, names in creation are cached and unpublished, cache entries
+   hold versions of their own name, and a call leaves the in-creation set as it found it
+   (c04_factory_conforms_partial — "partial" only in that it speaks about states, not histories). *)
 From IocVerif Require Import Model.Factory Model.App Proofs.FactoryBasics Proofs.FactoryInvariant.
 
 Theorem c04_factory_conforms_partial : forall s fuel st n st' v,
@@ -317,3 +320,64 @@ Proof.
   - assert (Hin : In m (creating (reg st))) by (apply (i_early_creating st HI); rewrite E2; reflexivity). rewrite Hcr in Hin. exact Hin.
   - assert (Hin : In m (creating (reg st))) by (apply (i_early_creating st HI); rewrite E2, E3; reflexivity). rewrite Hcr in Hin. exact Hin.
 Qed.
+
+(* ---- histories of whole starts ------------------------------------------------------------------------------ *)
+From IocVerif Require Import Model.FactoryTrace Proofs.FactoryTraceProofs.
+
+(* the traced model IS the model: same result, and the history replayed on the registry model gives the
+   registry of the final state (the factory touches its registry through these calls only) *)
+Theorem c04_factory_history_faithful : forall vt s,
+  snd (run_t vt s) = run vt s /\
+  state_after vt (fst (run_t vt s)) = match run vt s with Ok st => reg st | Fail _ st => reg st end.
+Proof.
+  intros vt s. split; [apply run_erase|]. rewrite run_replay. destruct (run vt s); reflexivity.
+Qed.
+
+(* every start, successful or failing (errors and panics included), of the repaired and of the unrepaired code *)
+Theorem c04_factory_conforms : forall vt s, conforms_strict_v vt (fst (run_t vt s)) = true.
+Proof. exact run_conforms_strict. Qed.
+
+(* ... and the GetComponentByName calls that follow it, as long as none of them is aborted by a panic *)
+Theorem c04_factory_conforms_lookups : forall vt s ns,
+  (forall st, snd (run_t vt s) = Ok st ->
+     Forall no_abort (snd (snd (lookups_core_t vt (normalise vt s) ns st)))) ->
+  conforms_strict_v vt (start_ops vt s ns) = true.
+Proof. exact start_conforms_strict. Qed.
+
+Lemma strict_conforms vt ops : conforms_strict_v vt ops = true -> conforms_v vt ops = true.
+Proof. unfold conforms_strict_v, conforms_v, protocol_strict, protocol. apply strict_proto. Qed.
+
+(* the three parts of C04, of every start *)
+Theorem c04_start_one_early_ref : forall vt s,
+  one_early_ref_b (trace vt (fst (run_t vt s))) = true /\ single_invocation_b (trace vt (fst (run_t vt s))) = true.
+Proof.
+  intros vt s. split; [apply c04_one_early_ref_b, strict_conforms|apply c04_single_invocation]; apply c04_factory_conforms.
+Qed.
+
+Theorem c04_start_early_ref_fresh : forall s, early_ref_fresh_b (trace repaired (fst (run_t repaired s))) = true.
+Proof. intros s. apply c04_early_ref_fresh. apply (strict_conforms repaired), c04_factory_conforms. Qed.
+
+Theorem c04_start_published_is_final : forall vt s, published_final_b (trace vt (fst (run_t vt s))) = true.
+Proof. intros vt s. apply c04_published_is_final_b, strict_conforms, c04_factory_conforms. Qed.
+
+Theorem c04_start_clean_failure : forall s ns, clean_failure_b (trace repaired (start_ops repaired s ns)) = true.
+Proof. intros s ns. apply c04_clean_failure_b. Qed.
+
+(* non-vacuity: a two-cycle (2 <-> 3) behind the built-in wire and further-matching processors; the history
+   has a creation nested in another one and an early-factory run *)
+Definition ex_cycle : scenario :=
+  mkScn [ mkComp 100 [] false None false true [] [] [] None None None false (Some (Ord 2, PBuiltin BWire));
+          mkComp 101 [] false None false true [] [] [] None None None false (Some (Ord 4, PBuiltin BFurther));
+          mkComp 0 [] false None false false [] [mkPoint false (TPtr 1) SByType None true] [] None (Some false) None false None;
+          mkComp 1 [] false None false false [] [mkPoint false (TPtr 0) SByType None true] [] None (Some false) None false None ]
+        [] false None [].
+
+Example c04_factory_history_example :
+  fst (run_t repaired ex_cycle) =
+  [ OGet 2 true None; OBegin 2; OAddFactory 2 2;
+      OGet 3 true None; OBegin 3; OAddFactory 3 3;
+        OGet 2 true (Some (VOrig 2));
+      OGet 3 false None; OEndOk 3 (VOrig 3);
+    OGet 2 false None; OEndOk 2 (VOrig 2);
+    OGet 3 true None ].
+Proof. vm_compute. reflexivity. Qed.
